@@ -14,4 +14,10 @@ for bid, r in sorted(m['roots'].items()):
         print(d['error'])
 for v in m['violations']:
     print('VIOL [%s/%s] %s :: %s (%s) props=%s\n     %s' % (v['rule'], v['status'], v['root'], '>'.join(v['chain']), v['primitive'], v.get('props'), v['what'][:int(os.environ.get('W','700'))]))
+if len(sys.argv) <= 2:
+    from mmcheck import graph, props
+    n_cen, cen, _ = graph.census(facts)
+    n_cov, cov = props.coverage_rule(facts, m)
+    for v in cen + cov:
+        print('VIOL [%s/%s] %s :: (%s) props=census\n     %s' % (v['rule'], v['status'], v['root'], v['primitive'], v['what'][:300]))
 print('oblig', dict(m['n_oblig']), 'by-prop', dict(m['n_oblig_p']), 'wall %.1fs' % m['wall'])
